@@ -48,6 +48,7 @@ def builds(ctx):
     out["asan"] = asan
     out["h_thr"] = B.compile_harness(asan, [os.path.join(HERE, "h_bp.c")], "h_bp_c02")
     out["h_env"] = B.compile_harness(asan, [os.path.join(HERE, "h_env.c")], "h_env_c02")
+    out["h_ino"] = B.compile_harness(asan, [os.path.join(HERE, "h_ino.c")], "h_ino_c02")
     plain = B.build("plain")
     out["plain"] = plain
     serial = B.build("plain", serial=True)
@@ -276,6 +277,118 @@ def tie_env(ctx, bl, drv):
                       dict(kind="env", cases=[b[0] for b in bad[:10]], model=m, impl=c,
                            correspondence="coq/C02/EnvModel.v vs lib/util/src/source_date_epoch.c + lib/common/src/fstree_cli.c"),
                       no_input=not unset)
+
+
+# ----------------------------------------------------------------------------------------------
+# tie (ino): the inode setters at the 32 bit boundaries + order independence on the implementation
+# ----------------------------------------------------------------------------------------------
+U32MAX = 0xFFFFFFFF
+EDGE = [0, 1, 2, 4096, U32MAX - 1, U32MAX, U32MAX + 1, U32MAX + 2, 1 << 33, (1 << 40) + 3]
+
+
+def _ops_text(ops):
+    return "INO " + " ".join(" ".join(str(x) for x in op) for op in ops)
+
+
+def _run_ino(exe, lines):
+    r = subprocess.run([exe], input=("\n".join(lines) + "\n").encode(), capture_output=True,
+                       env=dict(os.environ, ASAN_OPTIONS="detect_leaks=0"))
+    return r.stdout.decode().split("\n")
+
+
+def ino_cases(ctx):
+    """-> (free sequences for the tie, groups of permutations of one op multiset for the order oracle)"""
+    if ctx.replay:
+        r = json.load(open(ctx.replay))
+        return r.get("cases", []), [r["orders"]] if r.get("orders") else []
+    rnd = random.Random(ctx.seed * 271 + 9)
+    quick = ctx.tier == "quick"
+    free = []
+    for _ in range(2500 if quick else 40000):
+        ops = []
+        for _ in range(rnd.randint(1, 7)):
+            k = rnd.choice("zzaasspfxb")
+            v = rnd.choice(EDGE + [rnd.randint(0, 1 << 34)])
+            if k in "zas":
+                ops.append((k, v))
+            elif k == "p":
+                ops.append((k, rnd.choice([0, 1, 7, 4096, U32MAX])))
+            elif k == "f":
+                ops.append((k, rnd.randint(0, 9), rnd.randint(0, 4095)))
+            else:
+                ops.append((k,))
+        free.append(_ops_text(ops))
+    groups = []
+    for _ in range(1200 if quick else 20000):
+        # what one file can receive: appends (sizes only grow), sparse blocks / a sparse tail end (n > 0),
+        # at most one fragment reference, at most one block start
+        total = rnd.choice([U32MAX - 1, U32MAX, U32MAX + 1, U32MAX + 4096, rnd.randint(0, 1 << 33), rnd.randint(0, 70000)])
+        parts = []
+        left = total
+        for _ in range(rnd.randint(0, 3)):
+            c = rnd.choice([1, 4096, left // 2, left - 1 if left > 0 else 0, rnd.randint(0, left)])
+            c = max(0, min(left, c))
+            parts.append(c)
+            left -= c
+        parts.append(left)
+        ops = [("a", c) for c in parts]
+        ops += [("p", rnd.choice([1, 7, 4096, 131072])) for _ in range(rnd.choice([0, 0, 1, 2]))]
+        if rnd.random() < 0.7:
+            ops.append(("s", rnd.choice([0, 96, U32MAX - 1, U32MAX, U32MAX + 1, 1 << 33, rnd.randint(0, 1 << 33)])))
+        if rnd.random() < 0.5:
+            ops.append(("f", rnd.randint(0, 9), rnd.randint(0, 4095)))
+        orders = []
+        for _ in range(4):
+            o = ops[:]
+            rnd.shuffle(o)
+            orders.append(_ops_text(o))
+        groups.append(orders)
+    return free, groups
+
+
+def tie_ino(ctx, bl, drv):
+    free, groups = ino_cases(ctx)
+    flat = [l for g in groups for l in g]
+    lines = free + flat
+    if not lines:
+        return
+    om = _run_ino(drv, lines)
+    oc = _run_ino(bl["h_ino"], lines)
+    ctx.coverage["evaluations"] += len(lines)
+    ctx.coverage["ino_cases"] = dict(free_sequences=len(free), order_groups=len(groups), orders_per_group=4)
+    # the property, directly on the implementation: the inode does not depend on the order in which append,
+    # process_completed_fragment and process_completed_block reach it
+    pos = len(free)
+    for g in groups:
+        outs = oc[pos:pos + len(g)]
+        pos += len(g)
+        if len(set(outs)) > 1:
+            j = next(k for k in range(len(g)) if outs[k] != outs[0])
+            ctx.violation("inode-order-dependent", "lib/sqfs/src/inode.c: the same updates of one file inode applied in two orders "
+                          "give different inodes: %r -> %r but %r -> %r (the order depends on backlog and schedule)"
+                          % (g[0], outs[0], g[j], outs[j]),
+                          dict(kind="ino", cases=[], orders=g, impl=outs))
+            return
+        for o in outs:
+            t = o.split(" ")
+            if len(t) == 7 and t[1] in "01":
+                want = int(int(t[3]) > 0 or int(t[2]) > U32MAX or int(t[4]) > U32MAX)
+                if int(t[1]) != want:
+                    ctx.violation("inode-type-not-minimal", "inode type after %r is %s, expected %s (size %s, sparse %s, start %s)"
+                                  % (g[0], t[1], want, t[2], t[3], t[4]), dict(kind="ino", cases=[], orders=g, impl=outs))
+                    return
+    bad = [(lines[i], om[i] if i < len(om) else None, oc[i] if i < len(oc) else None)
+           for i in range(len(lines)) if i >= len(om) or i >= len(oc) or om[i] != oc[i]]
+    if bad:
+        l, m, c = bad[0]
+        ctx.tie_broken.append("inode setters of BpModel.v = lib/sqfs/src/inode.c")
+        ctx.violation("tie-ino", "the inode setters of coq/C02/BpModel.v disagree with lib/sqfs/src/inode.c on %r: model %r, "
+                      "implementation %r; the order-independence oracle on the implementation found no differing pair"
+                      % (l, m, c),
+                      dict(kind="ino", cases=[b[0] for b in bad[:10]], orders=None, model=m, impl=c,
+                           correspondence="coq/C02/BpModel.v i_set_file_size / i_set_block_start / i_make_extended / i_make_basic "
+                                          "vs lib/sqfs/src/inode.c (props/C02/h_ino.c, exact)"),
+                      no_input=True)
 
 
 # ----------------------------------------------------------------------------------------------
@@ -662,6 +775,9 @@ def run(ctx):
         if kind == "env":
             tie_env(ctx, bl, drv)
             return
+        if kind == "ino":
+            tie_ino(ctx, bl, drv)
+            return
     cases, lines, model, tie_bad, impl_disagree, res = tie_component(ctx, bl, drv)
     ctx.log("component tie: %d cases, %d legs, tie mismatches %d, implementation disagreements %d"
             % (len(lines), len(res), len(tie_bad), len(impl_disagree)))
@@ -672,6 +788,7 @@ def run(ctx):
                           dict(kind="component", cases=[lines[i]], model=model[i][-3000:], impl=res[name][1][i][-3000:]), no_input=True)
         return
     tie_env(ctx, bl, drv)
+    tie_ino(ctx, bl, drv)
     bad = tool_sweep(ctx, bl, short=bool(impl_disagree))
     ctx.log("tool sweep: %s" % json.dumps(ctx.coverage.get("tool_sweep", {}))[:300])
     broken = bool(tie_bad) or bool(ctx.proof_broken)
